@@ -2,7 +2,7 @@
 (* Universe enumeration for C13: one behaviour per case; the case record is printed once.  *)
 (* Spec-level invariant: the printing rules and the operator table agree with the          *)
 (* reference parser (Parse(Min(t)) = t and Parse(Full(t)) = t).                            *)
-EXTENDS SyltExpr, Json
+EXTENDS SyltPrimary, Json, IOUtils
 
 VARIABLES c, done
 vars == <<c, done>>
@@ -31,44 +31,85 @@ PrimeTrees == {Un(u, Call(Name("f"), <<Name("x")>>)) : u \in UnOps}
               \cup {Bin(BinOps[i], Name("d"), Un(u, Call(Name("f"), <<Name("x")>>))) : i \in {k \in 1..Len(BinOps) : Level(BinOps[k]) # 6}, u \in UnOps}
 PrimeMin(t) == IF t.k = "un" THEN <<t.op, "f", "'", "x">> ELSE <<"d", t.op, t.r.op, "f", "'", "x">>
 
+\* the PRIMARY x POSTFIX x WRAP x CONTEXT universes of SyltPrimary are addressed by small keys (strings); the tree and the
+\* texts are built in the action, by the workers
+NewKeys == UntypedKeys \cup {key \in TypedKeys : TypedKeyOk(key)} \cup {key \in UKeys : UKeyOk(key)}
+IsKey(x) == x.u \in {"prim", "pctx", "ptyped", "ustack"}
+
 Cases == {[u |-> "shape", t |-> t] : t \in Shapes2 \cup Shapes3}
          \cup {[u |-> "typed", t |-> t] : t \in Typed2}
          \cup ChainCases \cup MlCases \cup LongCases
          \cup {[u |-> "prime", t |-> t] : t \in PrimeTrees}
+         \cup {[u |-> "ustk", t |-> t] : t \in UStackShapes}
+         \cup NewKeys
 
+\* the specification's tree (a call written `f' x` is its own node kind here; Strip gives the implementation's view)
 TreeOf(x) == CASE x.u = "chain" -> Parse(ChainToks(x.i, x.j, x.m))
                [] x.u = "mlchain" -> Parse(LitChain(x.i, x.j, x.m))
                [] x.u = "longchain" -> Parse(LongToks(x.n, 1, x.o1, x.o2))
+               [] x.u \in {"prim", "pctx"} -> KeyTree(x)
+               [] x.u = "ptyped" -> TypedKeyTree(x)
+               [] x.u = "ustack" -> UKeyTree(x)
                [] OTHER -> x.t
-MinOf(x) == CASE x.u = "chain" -> ChainToks(x.i, x.j, x.m)
-              [] x.u = "mlchain" -> MlToks(x.i, x.j, x.m, x.pos, x.b)
-              [] x.u = "longchain" -> LongToks(x.n, 1, x.o1, x.o2)
-              [] x.u = "prime" -> PrimeMin(x.t)
-              [] OTHER -> Min(x.t)
+MinOfT(x, t) == CASE x.u = "chain" -> ChainToks(x.i, x.j, x.m)
+                  [] x.u = "mlchain" -> MlToks(x.i, x.j, x.m, x.pos, x.b)
+                  [] x.u = "longchain" -> LongToks(x.n, 1, x.o1, x.o2)
+                  [] x.u = "prime" -> PrimeMin(x.t)
+                  [] x.u = "ustack" -> IF x.sp = "tight" THEN Tight(Min(t), FALSE) ELSE Min(t)
+                  [] OTHER -> Min(t)
+MinOf(x) == MinOfT(x, TreeOf(x))
+FullOfT(x, t) == IF IsKey(x) \/ x.u = "ustk" THEN FullA(t) ELSE Full(t)
 
-Init == c \in Cases /\ done = FALSE
+\* C13_ONLY (environment): "all", or the name of one universe (development aid)
+Only == IOEnv.C13_ONLY
+Init == c \in {x \in Cases : Only = "all" \/ x.u = Only} /\ done = FALSE
+
+WName(w) == w[1] \o (IF w[2] = "" THEN "" ELSE ":" \o w[2])
+NoVal == [k |-> "none"]
+ValOf(x, t) == CASE x.u \in {"ptyped", "ustack"} -> EvalE(t, Env0) [] x.u = "typed" -> Eval(t) [] OTHER -> NoVal
+CaseRecord(x, t, v) ==
+    CASE x.u \in {"prim", "pctx"} ->
+           LET cc == CtxOf(x.cx) IN
+           [u |-> x.u, t |-> Strip(t), min |-> MinOfT(x, t), full |-> FullOfT(x, t), val |-> NoVal,
+            wl |-> cc.wl, wr |-> cc.wr, path |-> cc.path, whole |-> TRUE, ev |-> FALSE,
+            pk |-> x.pk, px |-> x.px, w |-> WName(x.w), cx |-> x.cx]
+      [] x.u = "ptyped" ->
+           LET cc == ECtxOf(x.cx, v.k, Show(v)) IN
+           [u |-> x.u, t |-> Strip(t), min |-> MinOfT(x, t), full |-> FullOfT(x, t),
+            val |-> [k |-> "show", s |-> IF cc.out = "v" THEN Show(v) ELSE cc.out], ev |-> TRUE, epre |-> cc.epre, epost |-> cc.epost,
+            pk |-> x.tt[1] \o "-" \o x.tt[2], px |-> x.tt[3], w |-> WName(x.w), cx |-> x.cx]
+      [] x.u = "ustack" ->
+           LET cc == ECtxOf(x.cx, v.k, Show(v)) IN
+           [u |-> x.u, t |-> Strip(t), min |-> MinOfT(x, t), full |-> FullOfT(x, t),
+            val |-> [k |-> "show", s |-> Show(v)], ev |-> TRUE, epre |-> cc.epre, epost |-> cc.epost,
+            pk |-> x.o, px |-> "n" \o ToString(x.n) \o "-" \o x.sp, w |-> WName(x.w), cx |-> x.cx]
+      [] OTHER ->
+           [u |-> x.u, t |-> t, min |-> MinOfT(x, t), full |-> FullOfT(x, t),
+            val |-> v]
 
 Emit == /\ ~done
         /\ done' = TRUE
         /\ c' = c
-        /\ LET t == TreeOf(c) IN
-           PrintT(<<"REPLAY", ToJson([u |-> c.u, t |-> t, min |-> MinOf(c), full |-> Full(t),
-                                      val |-> IF c.u = "typed" THEN Eval(t) ELSE [k |-> "none"]])>>)
+        /\ \E t \in {TreeOf(c)} : \E v \in {ValOf(c, t)} : PrintT(<<"REPLAY", ToJson(CaseRecord(c, t, v))>>)
 
 Next == Emit
 Spec == Init /\ [][Next]_vars
 
-\* (the reference parser knows neither line breaks nor the prime call: those texts are checked against the real parser only)
-RoundTrip == LET t == TreeOf(c) IN
-             /\ c.u \notin {"mlchain", "prime"} => Parse(MinOf(c)) = t
-             /\ Parse(Full(t)) = t
+\* The invariants are evaluated on the state AFTER the case was emitted (the initial states are all computed by one thread).
+\* (the reference parser knows neither line breaks nor the older prime texts nor the tight spelling: those texts are checked
+\*  against the real parser only)
+RoundTrip == done =>
+             \E t \in {TreeOf(c)} :
+             /\ c.u \notin {"mlchain", "prime"} => Parse(Min(t)) = t
+             /\ c.u \in {"chain", "longchain"} => MinOf(c) = Min(t)
+             /\ Parse(FullOfT(c, t)) = t
 
 \* a long chain of ONE operator leans to the left: its right operand is always a leaf
 RECURSIVE LeftLeaning(_)
 LeftLeaning(t) == t.k # "bin" \/ (t.r.k # "bin" /\ LeftLeaning(t.l))
-LongLeft == (c.u = "longchain" /\ c.o1 = c.o2) => LeftLeaning(TreeOf(c))
+LongLeft == (done /\ c.u = "longchain" /\ c.o1 = c.o2) => LeftLeaning(TreeOf(c))
 
-TypedOk == c.u = "typed" => TypeOf(c.t) \in {"int", "bool"}
+TypedOk == (done /\ c.u = "typed") => TypeOf(c.t) \in {"int", "bool"}
 
 \* the chain's tree really has the three operators in the table's grouping: loosest operator at the root,
 \* and among equal levels the rightmost (left associativity)
@@ -76,7 +117,7 @@ RECURSIVE MinLevelIn(_)
 MinLevelIn(t) == IF t.k # "bin" THEN 99
                  ELSE LET a == MinLevelIn(t.l)  b == MinLevelIn(t.r)  s == Level(t.op) IN
                       IF a <= b /\ a <= s THEN a ELSE IF b <= s THEN b ELSE s
-ChainRoot == c.u = "chain" =>
+ChainRoot == (done /\ c.u = "chain") =>
     LET t == TreeOf(c) IN
     /\ t.k = "bin" /\ Level(t.op) = MinLevelIn(t)
     /\ (t.r.k = "bin" => Level(t.r.op) > Level(t.op))     \* nothing of equal level hangs on the right
